@@ -880,7 +880,13 @@ type CaseItem struct {
 	Last  []Comment
 }
 
-func (c *CaseItem) Pos() Pos { return c.Patterns[0].Pos() }
+func (c *CaseItem) Pos() Pos {
+	if len(c.Patterns) == 0 {
+		// The parser can recover from a missing pattern; see [RecoverErrors].
+		return recoveredPos
+	}
+	return c.Patterns[0].Pos()
+}
 func (c *CaseItem) End() Pos {
 	if c.OpPos.IsValid() {
 		return posAddCol(c.OpPos, len(c.Op.String()))
